@@ -1,7 +1,6 @@
 package h
 
 import (
-	"bytes"
 	"fmt"
 	"os"
 	"strings"
@@ -143,20 +142,29 @@ func sharedSnapshot(jobs []*jobSpec) string {
 func caseMultiJob(t *testing.T, tp *simrt.Tape, res *Result) {
 	jobs := genJobs(tp, res)
 	before := sharedSnapshot(jobs)
-	// sequential results: each job alone, baseline schedule
 	seq := make([]jobResult, len(jobs))
-	for i, j := range jobs {
-		zt := simrt.ReplayTape(nil)
-		plain := *j
-		plain.plan = simrt.ReaderPlan{ErrAt: -1} // whole text in one read
-		out := simrt.Run(t, simrt.Config{Tape: zt, MaxSteps: asmMaxSteps, MaxTicks: asmMaxTicks}, func() {
-			seq[i] = runJob(&plain, zt, func() {})
-		})
-		if out.Budget || len(out.Panics) > 0 || !out.MainDone {
-			// such cases belong to C05/C13; not a C14 subject
-			res.Discard = "job does not complete on its own (subject of C05/C13)"
-			return
+	runSequential := func() bool {
+		// sequential results: each job alone, baseline schedule
+		for i, j := range jobs {
+			zt := simrt.ReplayTape(nil)
+			plain := *j
+			plain.plan = simrt.ReaderPlan{ErrAt: -1} // whole text in one read
+			out := simrt.Run(t, simrt.Config{Tape: zt, MaxSteps: asmMaxSteps, MaxTicks: asmMaxTicks}, func() {
+				seq[i] = runJob(&plain, zt, func() {})
+			})
+			if out.Budget || len(out.Panics) > 0 || !out.MainDone {
+				// such cases belong to C05/C13; not a C14 subject
+				res.Discard = "job does not complete on its own (subject of C05/C13)"
+				return false
+			}
 		}
+		return true
+	}
+	// which comes first is a choice: a cold concurrent start meets lazily
+	// initialised shared state that a sequential warm-up would hide
+	concurrentFirst := tp.Draw("mj.concurrent-first", 2) == 0
+	if !concurrentFirst && !runSequential() {
+		return
 	}
 	// concurrent: all jobs under one scheduler
 	conc := make([]jobResult, len(jobs))
@@ -167,6 +175,12 @@ func caseMultiJob(t *testing.T, tp *simrt.Tape, res *Result) {
 		}
 	}
 	out := simrt.Run(t, simrt.Config{Tape: tp, MaxSteps: asmMaxSteps * 4, MaxTicks: asmMaxTicks * 4}, fns[0], fns[1:]...)
+	if concurrentFirst {
+		res.stat("probe.concurrent-before-sequential", 1)
+		if !runSequential() {
+			return
+		}
+	}
 	res.stat("ticks", out.Ticks)
 	res.stat("sched.steps", int64(out.Steps))
 	res.stat("max.tasks", int64(out.Tasks))
@@ -379,46 +393,41 @@ func TestStress(t *testing.T) {
 		// multiply the job list over 1..32 threads
 		threads := []int{1, 2, 4, 8, 16, 32}[r%6]
 		seq := make([]jobResult, len(jobs))
-		ok := true
-		for i, j := range jobs {
-			if j.kind == "asm" && bytes.Contains(j.text, []byte("equ")) && len(j.text) > 4000 {
-				ok = false
-			}
-			done := make(chan struct{})
-			go func() {
-				defer func() { recover(); close(done) }()
-				plain := *j
-				plain.plan = simrt.ReaderPlan{ErrAt: -1}
-				seq[i] = runJob(&plain, nil, func() {})
-			}()
-			<-done
-			if !seq[i].done {
-				ok = false
-			}
-		}
-		if !ok {
-			continue
-		}
+		conc := make([][]jobResult, threads)
 		var wg sync.WaitGroup
-		var mu sync.Mutex
+		// concurrent first, on cold state; sequential results afterwards
 		for th := 0; th < threads; th++ {
+			conc[th] = make([]jobResult, len(jobs))
 			wg.Add(1)
 			go func(th int) {
 				defer wg.Done()
+				defer func() { recover() }()
 				for i, j := range jobs {
 					if (i+th)%2 == 0 || threads < 4 {
-						got := runJob(j, nil, func() {})
-						mu.Lock()
-						jobsRun++
-						if got != seq[i] {
-							mismatches++
-						}
-						mu.Unlock()
+						conc[th][i] = runJob(j, nil, func() {})
 					}
 				}
 			}(th)
 		}
 		wg.Wait()
+		for i, j := range jobs {
+			done := make(chan struct{})
+			go func() {
+				defer func() { recover(); close(done) }()
+				seq[i] = runJob(j, nil, func() {})
+			}()
+			<-done
+		}
+		for th := 0; th < threads; th++ {
+			for i := range jobs {
+				if conc[th][i].done {
+					jobsRun++
+					if seq[i].done && conc[th][i] != seq[i] {
+						mismatches++
+					}
+				}
+			}
+		}
 	}
 	out := map[string]any{"rounds": rounds, "jobs_run": jobsRun, "mismatches": mismatches}
 	must(writeJSON(os.Getenv("VERIF_OUT"), out))
